@@ -1574,7 +1574,7 @@ func TestC12InProcess(t *testing.T) {
 	fw.Run(t, fw.Spec[detCase]{
 		ID: "C12", Name: "in_process", Quick: 220, Thorough: 4800,
 		Gen: genCase, Check: checkCase,
-		Rule: "four CSV tables (t1 from the threshold-straddling size classes 5..1000 and, with lower weight, 299/300/301 around the loader's prepared capacity, 639/640/641 where 8 goroutines start and 1279/1280/1281/1700 where 16 goroutines start; join partner t2, DML target t3, t4 for the function sweep; contents expanded from one drawn seed) and a program of 1-3 queries (filter, every join kind, GROUP BY with aggregates incl. LISTAGG/JSON_AGG, DISTINCT, set operators, ORDER BY with ties and LIMIT/OFFSET, 1-4 analytic functions, subqueries, user-defined functions and aggregates, a sweep over the built-in scalar functions) plus 0-2 of INSERT..SELECT / UPDATE / DELETE / REPLACE each followed by SELECT * of its target, then COMMIT; the program runs in-process with cpu in {1, 2, three drawn values of 3..15, 16} x r runs (quick 3 - 2 from 1279 rows on -, thorough 10) under a drawn cycle of GOMAXPROCS values; every run must give the result sets (header, rows, row order; text and NULL-ness), the error and the bytes of every file of the first cpu=1 run; non-trivial = the verif counter saw a task manager with >1 goroutine in a non-reference run; distinct by (operator kinds, size class of t1); the classes t1_goroutines:N list the goroutine counts a task manager over all of t1 is given under the settings of the case",
+		Rule: "four CSV tables (t1 from the threshold-straddling size classes 5..1000 and, with lower weight, 299/300/301 around the loader's prepared capacity, 639/640/641 where 8 goroutines start and 1279/1280/1281/1700 where 16 goroutines start; join partner t2, DML target t3, t4 for the function sweep; contents expanded from one drawn seed) and a program of 1-3 queries (filter, every join kind, GROUP BY with aggregates incl. LISTAGG/JSON_AGG, DISTINCT, set operators, ORDER BY with ties and LIMIT/OFFSET, 1-4 analytic functions, subqueries, user-defined functions and aggregates, a sweep over the built-in scalar functions) plus 0-2 of INSERT..SELECT / UPDATE / DELETE / REPLACE each followed by SELECT * of its target, then COMMIT; the program runs in-process with cpu in {1, 2, three drawn values of 3..15, 16} x r runs (quick 3 - 2 from 1279 rows on -, thorough 10) under a drawn cycle of GOMAXPROCS values; every run must give the result sets (header, rows, row order; text and NULL-ness), the error and the bytes of every file of the first cpu=1 run; non-trivial = the verif counter saw a task manager with >1 goroutine in a non-reference run; distinct by (operator kinds, size class of t1); the classes t1_goroutines:N list the goroutine counts a task manager over all of t1 is given under the settings of the case. Round 5 adds, inside the same programs: (35% of cases) a prelude of 1-3 SET @@FLAG statements - STRICT_EQUAL, DATETIME_FORMAT with 3-4 formats of which two read the same texts differently (%d/%m/%Y, %m/%d/%Y), TIMEZONE, WITHOUT_NULL, SCIENTIFIC_NOTATION, the three character-width flags, ENCLOSE_ALL, LINE_BREAK, STRIP_ENDING_LINE_BREAK, WITHOUT_HEADER, JSON_ESCAPE, PRETTY_PRINT, WRITE_ENCODING - followed by a probe query per evaluation flag (column e of t4 holds texts both formats read, texts only one reads and texts of the other formats; DATETIME / MONTH / comparison / ORDER BY value / sort value of the text / GROUP BY / join condition over it), and (30% of those) a change of a flag in the middle of the program (ADD .. TO / REMOVE .. FROM @@DATETIME_FORMAT, SET) with the probes repeated; (20%) the cpu count set by the program: the session starts with one cpu and SET @@CPU TO <setting> runs before a drawn statement; analytic functions PERCENT_RANK, NTH_VALUE, FIRST/LAST_VALUE and LAG/LEAD with IGNORE NULLS, offsets and defaults, JSON_AGG and LISTAGG(DISTINCT) / COUNT(DISTINCT) / JSON_AGG(DISTINCT) as analytic functions, STDEV/VAR/MIN windows, expression arguments, PARTITION BY id % 200, and analytic functions over a join; NATURAL [LEFT|RIGHT|FULL] JOIN, outer joins with USING, chains of three tables, and joins with the small table on the left; ALTER TABLE ADD (DEFAULT expressions incl. correlated subqueries, position) / RENAME / DROP, UPDATE and DELETE of two joined tables at once, ALTER TABLE SET FORMAT / LINE_BREAK / ENCLOSE_ALL / ENCODING / HEADER / DELIMITER / JSON_ESCAPE / PRETTY_PRINT followed by a DELETE (the file is rewritten with those attributes at COMMIT), INSERT..SELECT of analytic values, and changes undone by ROLLBACK; in the function sweep, arguments whose pattern / format / JSON query differs from row to row and arguments in the formats of @@DATETIME_FORMAT; each of these shapes counts as distinct once per size class of t1 it ran in parallel with",
 		Assumptions: []string{
 			"goroutine schedules are sampled (r runs per setting, GOMAXPROCS varied): no divergence in r runs is not a proof",
 			"cells are compared by text and NULL-ness, not by csvq value type",
@@ -1740,7 +1740,7 @@ func TestC12CLI(t *testing.T) {
 	fw.Run(t, fw.Spec[detCase]{
 		ID: "C12", Name: "cli", Quick: 24, Thorough: 480,
 		Gen: genCLICase, Check: checkCLICase,
-		Rule:        "the same generator; the program is run by the csvq binary as `csvq --cpu N -f FORMAT -q [-o result.out] -s prog.sql` with FORMAT drawn from CSV, TSV, FIXED, JSON, JSONL, LTSV, GFM, ORG, BOX, TEXT and the result sets going to stdout or (35%) to a file, for N in {1, 2, three drawn values of 3..15, 16} x r runs (quick 2, thorough 4) with the GOMAXPROCS environment variable varied; stdout, stderr, exit code and the bytes of every file in the repository after the run must equal those of the first --cpu 1 run; non-trivial = an in-process run of the same program at cpu 16 used a task manager with >1 goroutine; distinct by (operator kinds, size class of t1)",
+		Rule:        "the same generator; the program is run by the csvq binary as `csvq --cpu N -f FORMAT -q [-o result.out] -s prog.sql` with FORMAT drawn from CSV, TSV, FIXED, JSON, JSONL, LTSV, GFM, ORG, BOX, TEXT and the result sets going to stdout or (35%) to a file, for N in {1, 2, three drawn values of 3..15, 16} x r runs (quick 2, thorough 4) with the GOMAXPROCS environment variable varied; stdout, stderr, exit code and the bytes of every file in the repository after the run must equal those of the first --cpu 1 run; non-trivial = an in-process run of the same program at cpu 16 used a task manager with >1 goroutine; distinct by (operator kinds, size class of t1). Round 5: (55%) 1-3 further command-line options - --strict-equal, --datetime-format with ambiguous formats, --timezone, --without-null, --ansi-quotes, --scientific-notation, the character-width options, --enclose-all, --line-break, --strip-ending-line-break, --without-header, --json-escape, --pretty-print, --write-encoding, --write-delimiter, -p after --cpu - and (15%) a csvq_env.json in the working directory that sets datetime_format and timezone; the programs carry the round-5 shapes of in_process (flag prelude and probes, SET @@CPU in the program with the process started as --cpu 1, ...)",
 		Assumptions: []string{"goroutine schedules are sampled", "a run that exceeds 60 s is repeated once with 240 s before it counts (loaded machine)"},
 	})
 }
